@@ -39,7 +39,8 @@ pub const SIGMA_RUN: [&str; 4] = ["-TXTPP#run printf r", "-TXTPP#run printf 'r\\
 /// second alphabet for C01: decision points the core alphabet does not reach (tab indentation, prefixes
 /// with blanks and non-ASCII characters, `after`, temp targets in sub-directories, CRLF/mixed included files,
 /// whitespace-only lines, prefix-related tag names, an empty directive with arguments)
-pub const SIGMA_EXT: [&str; 23] = [
+pub const SIGMA_EXT: [&str; 24] = [
+    "\tz",
     "-TXTPP#include sub/t2.out",
     "-TXTPP#temp a.txtpp.b",
     "-",
@@ -428,7 +429,7 @@ pub fn run_c01(tier: &str) -> i32 {
     // phase 3: the extension alphabet (its own helper files; a temp target in a sub-directory)
     let l_ext = if thorough { 4 } else { 3 };
     rep.set("alphabet_ext", json!(SIGMA_EXT));
-    rep.set("bounds_ext", json!(format!("all sources of <= {l_ext} lines over the 23-symbol extension alphabet x LF/CRLF x final newline x option")));
+    rep.set("bounds_ext", json!(format!("all sources of <= {l_ext} lines over the 24-symbol extension alphabet x LF/CRLF x final newline x option")));
     let help_ext = helpers_ext();
     sharded_dyn(&rep, par_threads(), |_k, _n, next, rep| {
         let b = Bench::new(&help_ext);
